@@ -146,7 +146,7 @@ class ValueGen:
     def __init__(self, rnd, kinds=None):
         self.rnd = rnd
         self.n = 0
-        self.kinds = kinds or ["i", "f", "b", "s", "su", "y", "v", "a", "a2", "e"]
+        self.kinds = kinds or ["i", "f", "b", "s", "su", "y", "v", "a", "a2", "e", "ao"]
 
     def next(self, attr=False):
         self.n += 1
@@ -177,6 +177,10 @@ class ValueGen:
             return ["a", [[n, 1], [2, self.rnd.randrange(100)]]]
         if k == "e":
             return ["e"]
+        if k == "ao":
+            # array of variable-length byte strings, some of them not valid UTF-8
+            items = [f"o{n}".encode() + bytes(self.rnd.choice([[], [0x80], [0xC3], [0xE4, 0xB8], [0xFF, 0x41]])) for _ in range(self.rnd.choice([1, 2, 3]))]
+            return ["O", [V.b64(b) for b in items]]
         raise ValueError(k)
 
 
